@@ -308,6 +308,94 @@ def deepcopy_source(kw, later):
     return 'UnknownSource'
 
 
+
+# ---- (f) the conversion ladders of the parser (musicxml/parser/parser.py)
+def parser_ir():
+    t = parse('musicxml/parser/parser.py')
+    fns = {n.name: n for n in t.body if isinstance(n, ast.FunctionDef)}
+    for need in ('_et_xml_to_music_xml', '_parse_node', 'parse_musicxml'):
+        if need not in fns:
+            raise Fail('parser: no function ' + need)
+    others = [n for n in t.body if not isinstance(n, (ast.FunctionDef, ast.Import, ast.ImportFrom))]
+    if others or set(fns) != {'_et_xml_to_music_xml', '_parse_node', 'parse_musicxml'}:
+        raise Fail('parser: module-level state or extra functions (%s)' % ', '.join(sorted(set(fns)) + [type(n).__name__ for n in others]))
+    f = fns['_et_xml_to_music_xml']
+    body = list(f.body)
+    if len(body) != 4 or not isinstance(body[0], ast.If) or not isinstance(body[1], ast.Try) or not isinstance(body[2], ast.For) or not isinstance(body[3], ast.Return):
+        raise Fail('parser: _et_xml_to_music_xml is not  if / try / for / return')
+    # text = node.text.strip() if node.text else ''
+    i = body[0]
+    src_if = ast.unparse(i)
+    if ast.unparse(i.test) != 'node.text' or len(i.body) != 1 or len(i.orelse) != 1 or ast.unparse(i.body[0]) != 'text = node.text.strip()' or ast.unparse(i.orelse[0]) != "text = ''":
+        raise Fail('parser: text preparation is not strip(): ' + src_if)
+
+    def conv(expr, var):
+        u = ast.unparse(expr)
+        if u == var:
+            return 'Id'
+        if u == 'float(%s)' % var:
+            return 'Float'
+        if u == 'int(%s)' % var:
+            return 'Int'
+        raise Fail('parser: unknown conversion ' + u)
+
+    def handler_names(h):
+        if h.type is None:
+            raise Fail('parser: bare except')
+        if isinstance(h.type, ast.Tuple):
+            return [ast.unparse(e) for e in h.type.elts]
+        return [ast.unparse(h.type)]
+
+    def ladder(node, rung_of):
+        """node: a Try whose body is one statement and whose only handler holds either one statement or one nested Try"""
+        out = []
+        while True:
+            if isinstance(node, ast.Try):
+                if len(node.body) != 1 or len(node.handlers) != 1 or node.orelse or node.finalbody or len(node.handlers[0].body) != 1:
+                    raise Fail('parser: ladder rung is not try: <one statement> except <E>: <one statement>')
+                names = handler_names(node.handlers[0])
+                for nme in names:
+                    if nme not in ('TypeError', 'ValueError'):
+                        raise Fail('parser: handler for ' + nme)
+                out.append((rung_of(node.body[0]), names))
+                node = node.handlers[0].body[0]
+            else:
+                out.append((rung_of(node), []))
+                return out
+
+    def text_rung(st):
+        if not isinstance(st, ast.Assign) or ast.unparse(st.targets[0]) != 'output' or not isinstance(st.value, ast.Call):
+            raise Fail('parser: text rung is not output = cls(value_=...)')
+        c = st.value
+        if ast.unparse(c.func) != 'eval(convert_to_xml_class_name(node.tag))' or c.args or len(c.keywords) != 1 or c.keywords[0].arg != 'value_':
+            raise Fail('parser: text rung constructor: ' + ast.unparse(c))
+        return conv(c.keywords[0].value, 'text')
+
+    def attr_rung(st):
+        if not isinstance(st, ast.Expr) or not isinstance(st.value, ast.Call) or ast.unparse(st.value.func) != 'setattr' or len(st.value.args) != 3:
+            raise Fail('parser: attribute rung is not setattr(output, k, ...)')
+        a = st.value.args
+        if ast.unparse(a[0]) != 'output' or ast.unparse(a[1]) != 'k':
+            raise Fail('parser: attribute rung target')
+        return conv(a[2], 'v')
+    text = ladder(body[1], text_rung)
+    fo = body[2]
+    if ast.unparse(fo.target) != '(k, v)' and ast.unparse(fo.target) != 'k, v' or ast.unparse(fo.iter) != 'node.attrib.items()' or len(fo.body) != 1 or fo.orelse:
+        raise Fail('parser: attribute loop: ' + ast.unparse(fo.target) + ' in ' + ast.unparse(fo.iter))
+    attr = ladder(fo.body[0], attr_rung)
+    if ast.unparse(body[3]) != 'return output':
+        raise Fail('parser: return')
+    pn = fns['_parse_node']
+    exp = ['output = _et_xml_to_music_xml(xml_node)', 'for child in xml_node:\n    output.add_child(_parse_node(child))', 'return output']
+    if [ast.unparse(x) for x in pn.body] != exp:
+        raise Fail('parser: _parse_node is not  convert; add every child in file order; return')
+    pm = fns['parse_musicxml']
+    if len(pm.body) != 2 or not isinstance(pm.body[0], ast.With) or ast.unparse(pm.body[1]) != 'return _parse_node(xml.getroot())' or \
+            [ast.unparse(x) for x in pm.body[0].body] != ['xml = ET.parse(file)']:
+        raise Fail('parser: parse_musicxml is not  open; ET.parse; _parse_node(root)')
+    return {'strip': True, 'text': text, 'attr': attr, 'children_in_file_order': True}
+
+
 def cq(s):
     return q(str(s))
 
@@ -387,6 +475,22 @@ def main():
         o.append('Definition deepcopy_source_name : string := "UnknownSource".')
         o.append('Definition deepcopy_ctor : list (string * string) := [].')
         o.append('Definition deepcopy_later : list (string * string * string) := [].')
+    o.append('Inductive conv := CId | CFloat | CInt.')
+    o.append('Inductive pexn := PTypeError | PValueError.')
+    try:
+        pir = parser_ir()
+        side['parser'] = pir
+
+        def lad(l):
+            return '[' + '; '.join('(C%s, [%s])' % (c, '; '.join('P' + h for h in hs)) for c, hs in l) + ']'
+        o.append('Definition tr_parser_ok := true.')
+        o.append('Definition parser_text_ladder : list (conv * list pexn) := %s.' % lad(pir['text']))
+        o.append('Definition parser_attr_ladder : list (conv * list pexn) := %s.' % lad(pir['attr']))
+    except Fail as ex:
+        side['parser'] = 'FAILED: ' + str(ex)
+        o.append('Definition tr_parser_ok := false. (* %s *)' % str(ex).replace('*', ' ').replace('\n', ' '))
+        o.append('Definition parser_text_ladder : list (conv * list pexn) := [].')
+        o.append('Definition parser_attr_ladder : list (conv * list pexn) := [].')
     ch = write_if_changed(os.path.join(VERIF, 'coq', 'Gen', 'Code.v'), '\n'.join(o) + '\n')
     write_if_changed(os.path.join(VERIF, 'build', 'code.json'), json.dumps(side, sort_keys=True, indent=1))
     print('code: write=%s opens=%s prints=%s caches=%s changed=%s' % (
